@@ -41,15 +41,16 @@ PLAN = dict(
                 "implied by lin_check), which is DISCHARGED for x86-64 (K = 40+13F), AArch64 (40+15F) and RISC-V (20+13F), F = FIELDS_PER_BLOCK, giving "
                 "x86_compile / a64_compile / rv_compile instruction bounds without cost hypothesis; the parallel-move algorithm emits <= 2*edges + keys "
                 "pseudo-instructions on graphs with in-degree <= 1 (and exponentially many on diamond chains: the round-1 cost_model over all move tables was "
-                "too strong); composition: linearized AxCut <= pipeline_ax_bound <= 8*(4+X(4+A))^2*(12*W*(4+V))^4 and x86-64 instructions <= "
-                "30 + x86_K*L*(5+2L) from the source alone (degree 8 in W(4+V); crude: width <= size is the only width estimate without a scoping invariant); "
+                "too strong); the contexts of a linearized statement are <= 2*(context + size before linearization); composition with w = 12*W*(4+V), d = 4+X(4+A): "
+                "shrunk <= d*w^2, linearized <= 8*(d*w^2)^2 and x86-64 instructions <= 30 + x86_K*L*(5+4S) <= 30 + 72*x86_K*(d*w^2)^3 from the source alone "
+                "(degree 6 in W(4+V); crude: width <= size is the only width estimate without a scoping invariant); "
                 "vm_compute example of the whole pipeline.  Still only stated: the sharp linear form of shrinking",
     assumptions=[
         "the size measures: node counts including the length of every variable list (Lang/AxSize.v, Lang/FsSize.v), plain node counts for Fun and Core (arguments are terms there)",
         "the generic measure G is within [1, 64] x (the Coq measure + the weight of the type declarations) on every case (checked on every case, not proved; for random programs the upper bound is not required of the checked Fun program, whose type annotations are unbounded)",
         "code generation: the instruction bounds need sub_wf (distinct ids in the old and new context of every Substitute); it follows from lin_check_prog, which C05 proves of linearize p for prog_ok p; prog_ok of the shrunk program is not proved here; modelrun evaluates sub_wf on every real linearized program",
         "the proved cost constants (79 / 85 / 59) are far above the observed instructions per cg_bound unit (<= 3); K = 16 remains as a calibrated, unproved check",
-        "the composed pipeline bound is crude (width <= size at every stage): degree 8 in weighted size x (4 + occurrences) for the instruction count",
+        "the composed pipeline bound is crude (shrinking quadratic, width <= size in linearization): degree 6 in weighted size x (4 + occurrences) for the instruction count",
         "growth thresholds: factor 6 per doubling of k separates degree <= 2 (factor <= 4 + lower-order terms) from degree >= 3 (factor 8) and from 2^k (factor 256)",
         "RISC-V: print is not implemented and at most 14 live variables fit; those outputs are `panic` and skipped",
     ],
